@@ -23,6 +23,8 @@ from fontTools.ttLib import TTFont, TTCollection, TTLibError
 
 from oracles import corpus
 from oracles import c20_container as cont
+from oracles import c20_audit as audit
+from oracles import c20_sites as sites
 
 LEVEL = "fault_enumeration"
 ASSUMPTIONS = [
@@ -57,6 +59,33 @@ def tb_tail(exc, n=5):
     import traceback
 
     return "".join(traceback.format_exception(exc)[-n:])
+
+
+def preload():
+    audit.base_dir()
+    _preload_modules()
+
+
+def _preload_modules():
+    """import every table module in the parent, before the fork: the tree is run without byte
+    code caching, so that a module first imported in a worker is compiled there from source
+    (16 times, while cases wait)."""
+    import importlib
+    import pkgutil
+    import fontTools.ttLib.tables as T
+
+    for m in pkgutil.iter_modules(T.__path__):
+        try:
+            importlib.import_module("fontTools.ttLib.tables." + m.name)
+        except Exception:
+            pass
+    for name in ("fontTools.cffLib", "fontTools.cffLib.specializer", "fontTools.ttLib.woff2", "fontTools.agl", "fontTools.misc.psCharStrings",
+                 "fontTools.feaLib.parser", "fontTools.feaLib.builder", "fontTools.designspaceLib", "fontTools.ufoLib", "fontTools.ufoLib.glifLib",
+                 "fontTools.misc.plistlib", "fontTools.varLib", "fontTools.ttx", "fontTools.misc.etree", "fontTools.pens.recordingPen", "fontTools.pens.pointPen"):
+        try:
+            importlib.import_module(name)
+        except Exception:
+            pass
 
 
 # ------------------------------------------------------------------ container files
@@ -321,13 +350,15 @@ class Corrupt(Unit):
 
     def setup(self, tier, seed):
         self.files = container_files()
+        self.seed = seed
 
     def select(self, tier):
         names = sorted(self.files, key=lambda n: (len(self.files[n]), n))
         if tier == "quick":
-            # the 206 AOTS fonts share one directory layout: quick takes every 8th of them
+            # the 206 AOTS fonts share one directory layout: quick takes every 8th of them (the seed
+            # chooses which residue class)
             aots = [n for n in names if corpus.is_aots(n)]
-            keep = set(aots[::8])
+            keep = set(aots[self.seed % 8 :: 8])
             names = [n for n in names if not corpus.is_aots(n) or n in keep]
             names = [n for n in names if not n.startswith("derived/") or Truncate._full(self, n, "quick")]
         return names
@@ -524,8 +555,9 @@ class Alarm(BaseException):
 
 
 class time_limit:
-    """wall-clock guard around one call into the library (a damaged count can make a decoder
-    loop for hours); expiry is reported, never silently skipped."""
+    """CPU-time guard (ITIMER_PROF: user + system time of this process, so that the verdict
+    does not depend on the load of the machine) around one call into the library: a damaged
+    count can make a decoder loop for hours; expiry is counted, never silently skipped."""
 
     def __init__(self, seconds):
         self.seconds = seconds
@@ -536,14 +568,14 @@ class time_limit:
         def handler(signum, frame):
             raise Alarm()
 
-        self.old = signal.signal(signal.SIGALRM, handler)
-        signal.setitimer(signal.ITIMER_REAL, self.seconds)
+        self.old = signal.signal(signal.SIGPROF, handler)
+        signal.setitimer(signal.ITIMER_PROF, self.seconds)
 
     def __exit__(self, *a):
         import signal
 
-        signal.setitimer(signal.ITIMER_REAL, 0)
-        signal.signal(signal.SIGALRM, self.old)
+        signal.setitimer(signal.ITIMER_PROF, 0)
+        signal.signal(signal.SIGPROF, self.old)
         return False
 
 
@@ -560,14 +592,20 @@ def trunc_lengths(n, every_below):
 
 class Undecodable(Unit):
     name = "E3-undecodable"
-    rule = ("every table of every plain-sfnt corpus font below the size bound (quick 4 kB non-AOTS; thorough 16 kB, tables deduplicated by (tag, payload)): payload truncated to every length (tables <= 512 B (quick 256); else 0..64, 2^k-1..2^k+1, len-16..len-1), every single bit flipped in the first 64 B (quick 32), payload replaced by 4 x 0xFF; "
+    rule = ("every table of every plain-sfnt corpus font below the size bound (quick 4 kB non-AOTS plus one AOTS font chosen by the seed; thorough 16 kB; tables deduplicated by (tag, payload)): payload truncated to every length (tables <= 512 B (quick 128); else 0..64, 2^k-1..2^k+1, len-16..len-1), every single bit flipped in the first 64 B (quick 16), payload replaced by 4 x 0xFF; "
             "font rebuilt by an independent sfnt writer, opened with ignoreDecompileErrors=True: font[tag] never raises; when it is the DefaultTable fallback, save() succeeds and the saved file holds exactly the damaged bytes for that table and the original bytes for every table never loaded; distinct = each (font, tag, damage)")
     required_witnesses = ("fallback to DefaultTable taken", "damaged table still decodes", "fallback saved byte-exact", "untouched tables unchanged")
     chunk = 1
 
     def setup(self, tier, seed):
         self.fonts = {n: d for n, d in corpus.binary_files() if cont.kind_of(d) == "sfnt" and len(d) < MEDIUM}
-        self.limit = 5 if tier == "quick" else 20
+        self.limit = 2 if tier == "quick" else 20
+        self.seed = seed
+        preload()
+
+    def aots_pick(self):
+        a = sorted(n for n in self.fonts if corpus.is_aots(n))
+        return a[(self.seed * 37) % len(a)] if a else None
 
     def plan(self, tier):
         lim = SMALL if tier == "quick" else MEDIUM
@@ -575,7 +613,7 @@ class Undecodable(Unit):
         out = []
         for name in sorted(self.fonts, key=lambda n: (len(self.fonts[n]), n)):
             data = self.fonts[name]
-            if len(data) >= lim or (tier == "quick" and corpus.is_aots(name)):
+            if len(data) >= (MEDIUM if corpus.is_aots(name) else lim) or (tier == "quick" and corpus.is_aots(name) and name != self.aots_pick()):
                 continue
             ref = cont.ref_sfnt(data)
             if ref.open_error or any(v is cont.MUST for v in ref.tables.values()):
@@ -593,8 +631,8 @@ class Undecodable(Unit):
         return {"font_tables": len(p), "fonts": len({n for n, _t, _l in p})}
 
     def damages(self, n, tier):
-        every = 256 if tier == "quick" else 512
-        nbits = 8 * min(n, 32 if tier == "quick" else 64)
+        every = 128 if tier == "quick" else 512
+        nbits = 8 * min(n, 16 if tier == "quick" else 64)
         out = [["t", L] for L in trunc_lengths(n, every)]
         out += [["f", b] for b in range(nbits)]
         out.append(["x"])
@@ -603,8 +641,8 @@ class Undecodable(Unit):
     def cases(self, tier, seed):
         for name, tag, n in self.plan(tier):
             ds = self.damages(n, tier)
-            for i in range(0, len(ds), 128):
-                yield [name, tag, ds[i : i + 128]]
+            for i in range(0, len(ds), 64):
+                yield [name, tag, ds[i : i + 64]]
 
     def check(self, case, rec):
         _limits()
@@ -652,13 +690,19 @@ class Undecodable(Unit):
                 rec.count("undecided: no answer within the time limit (%s)" % tag.strip())
                 continue
             out = cont.ref_sfnt(buf.getvalue())
-            if out.open_error or out.tables.get(tag) != payload:
-                rec.violation("fallback-not-byte-exact:%s" % tag.strip(), "saved %r differs from the damaged payload" % tag, case=sub, observed=(out.tables.get(tag) or b"")[:64], expected=payload[:64])
+            saved = out.tables.get(tag)
+            if tag == "head" and isinstance(saved, bytes) and len(saved) == len(payload):
+                # bytes 8..11 of 'head' hold the whole-file checksum adjustment, which every
+                # save recomputes: a field of the container, not of the table content
+                saved = saved[:8] + payload[8:12] + saved[12:]
+            if out.open_error or saved != payload:
+                rec.violation("fallback-not-byte-exact:%s" % tag.strip(), "saved %r differs from the damaged payload" % tag, case=sub, observed=(saved if isinstance(saved, bytes) else b"")[:64], expected=payload[:64])
             else:
                 rec.witness("fallback saved byte-exact")
             for t in never_loaded:
                 if out.tables.get(t) != ref.tables[t]:
-                    rec.violation("untouched-table-changed:%s" % t.strip(), "table %r was never loaded but its bytes changed on save (damaged table %r)" % (t, tag), case=sub)
+                    rec.violation("untouched-table-changed:%s:damaged-%s" % (t.strip(), tag.strip()), "table %r was never loaded but its bytes changed on save (damaged table %r, %d bytes)" % (t, tag, len(payload)), case=sub,
+                                  observed=out.tables.get(t) if not isinstance(out.tables.get(t), bytes) else out.tables.get(t)[:32], expected=ref.tables[t][:32])
                     break
             else:
                 if never_loaded:
@@ -666,5 +710,915 @@ class Undecodable(Unit):
         rec.evals(len(ds) - 1)
 
 
+# ------------------------------------------------------------------ E4 code-execution canaries
+
+
+def judge_canary(rec, w, what, site_key, sub, exc, canary):
+    """after a run inside Watch `w`: report execution; classify the ordinary outcomes."""
+    if w.executed:
+        rec.violation("executed:%s:%s" % (what, ":".join(str(k) for k in site_key)),
+                      "%s value was executed (%s canary): %s" % (what, canary, "; ".join(sorted(set(w.executed)))), case=sub)
+        return
+    if exc is None:
+        rec.witness("canary kept as data (clean parse)")
+    else:
+        if isinstance(exc, (RecursionError, MemoryError)):
+            rec.witness("resource error survived")
+        tb = exc.__traceback__
+        in_ast = False
+        while tb is not None:
+            if tb.tb_frame.f_code.co_filename.endswith("/ast.py"):
+                in_ast = True
+            tb = tb.tb_next
+        if in_ast:
+            rec.witness("literal_eval refused the canary")
+        else:
+            rec.witness("ordinary exception")
+    if w.compiles:
+        rec.witness("value reached a parser (compile event only)")
+
+
+def guarded(fn, limit=20):
+    """run fn(); -> (exception | None).  BaseException other than Exception is re-raised
+    (SystemExit etc. are not ordinary outcomes) except the time guard."""
+    import warnings
+
+    try:
+        with warnings.catch_warnings():
+            warnings.simplefilter("ignore")
+            with time_limit(limit):
+                fn()
+        return None
+    except Alarm:
+        return TimeoutError("no answer within %d s" % limit)
+    except Exception as e:
+        return e
+
+
+class CanaryTTX(Unit):
+    name = "E4-ttx"
+    rule = ("every distinct (table, element, attribute | text node) site of the corpus TTX files (smallest carrier file; document reduced to GlyphOrder + that table) plus the attributes the reader itself evaluates (raw, ERROR, sfntVersion, src) x 8 canaries (os.mkdir(P), open(P,'w'), __subclasses__ chain, 200-deep parenthesis bomb, and four quote-breakout forms \" ' \"\"\" ''' for readers that wrap the value in quotes before evaluating it): "
+            "TTFont().importXML, then compile of every imported table; the audit hook sees no exec of the canary and no os.mkdir/open/system/Popen on P, P does not exist afterwards; outcome is a clean parse or an ordinary exception; distinct = each (site, canary)")
+    required_witnesses = ("literal_eval refused the canary", "canary kept as data (clean parse)", "table compiled after import", "monitor sees a real eval", "monitor ignores literal_eval")
+    chunk = 12
+
+    def setup(self, tier, seed):
+        preload()
+        paths = sorted(corpus.ttx_files(), key=lambda p: (os.path.getsize(p), p))
+        self.sites = sites.ttx_sites(paths, corpus.TESTS)
+        self._cache = (None, None)
+
+    def bounds(self, tier, seed):
+        return {"sites": len(self.sites), "carrier_files": len({s[3] for s in self.sites}), "canaries": len(audit.CANARY_NAMES), "synthetic_sites": len(sites.SYNTHETIC_TTX)}
+
+    def cases(self, tier, seed):
+        yield ["selftest"]
+        for k in sorted(sites.SYNTHETIC_TTX):
+            yield ["synthetic", k]
+        for s in sorted(self.sites, key=lambda s: (s[3], s[0], s[1], s[2])):
+            yield ["site"] + s
+
+    def root(self, rel):
+        import xml.etree.ElementTree as ET
+
+        if self._cache[0] != rel:
+            self._cache = (rel, ET.parse(os.path.join(corpus.TESTS, rel)).getroot())
+        return self._cache[1]
+
+    def check(self, case, rec):
+        _limits()
+        if case[0] == "selftest":
+            seen, lit_ok = audit.self_test()
+            if len(seen) == 4:
+                rec.witness("monitor sees a real eval")
+            if lit_ok:
+                rec.witness("monitor ignores literal_eval")
+            return
+        n = 0
+        only = None
+        if case[-1] in audit.CANARY_NAMES:  # a recorded violation: one canary of the site
+            case, only = case[:-1], case[-1]
+        for cname in audit.CANARY_NAMES if only is None else [only]:
+            w = audit.Watch()
+            value = w.canaries()[cname]
+            if case[0] == "synthetic":
+                doc = (sites.SYNTHETIC_TTX[case[1]] % sites.xml_attr_escape(value)).encode()
+                key = ["synthetic", case[1]]
+            else:
+                _k, table, element, attr, rel = case
+                doc = sites.ttx_reduced(self.root(rel), table, element, attr, value)
+                key = [table, element, attr]
+                if doc is None:
+                    rec.count("site not found again")
+                    continue
+            font = TTFont()
+            state = {}
+
+            def run():
+                font.importXML(io.BytesIO(doc))
+                state["imported"] = True
+                for tag in font.keys():
+                    if tag != "GlyphOrder":
+                        try:
+                            font[tag].compile(font)
+                            state["compiled"] = True
+                        except Exception:
+                            pass
+
+            with w:
+                exc = guarded(run)
+            if state.get("compiled"):
+                rec.witness("table compiled after import")
+            judge_canary(rec, w, "ttx", key, case + [cname], exc, cname)
+            rec.nontrivial_n(1)
+            n += 1
+        rec.evals(max(0, n - 1))
+
+
+class CanaryXML(Unit):
+    name = "E4-xml"
+    rule = ("designspace / GLIF / property-list files of the corpus: quick = every distinct (root, element, attribute | text) site with its smallest carrier; thorough = every value occurrence of every file; x 8 canaries: "
+            "DesignSpaceDocument.fromstring, glifLib.readGlyphFromString (glyph object + point pen), misc.plistlib.loads; same monitor as E4-ttx; distinct = each (file, occurrence, canary)")
+    required_witnesses = ("designspace", "glif", "plist", "canary kept as data (clean parse)", "ordinary exception")
+    chunk = 8
+
+    EXT = {"designspace": ".designspace", "glif": ".glif", "plist": ".plist"}
+
+    def setup(self, tier, seed):
+        preload()
+        self.plan = {}
+        for fmt, ext in self.EXT.items():
+            paths = [p for p in sites.files_with_ext(corpus.TESTS, ext) if os.path.getsize(p) < 200000]
+            self.plan[fmt] = sites.xml_file_sites(paths, corpus.TESTS)
+
+    def bounds(self, tier, seed):
+        return {fmt: {"distinct_sites": len(s), "files": len(o), "occurrences": sum(o.values())} for fmt, (s, o) in self.plan.items()}
+
+    def cases(self, tier, seed):
+        for fmt in sorted(self.plan):
+            s, occ = self.plan[fmt]
+            if tier == "quick":
+                for key, rel, idx in s:
+                    yield [fmt, rel, [idx]]
+            else:
+                import xml.etree.ElementTree as ET
+
+                for rel in sorted(occ):
+                    root = ET.parse(os.path.join(corpus.TESTS, rel)).getroot()
+                    oc = sites.xml_occurrences(root)
+                    for i in range(0, len(oc), 8):
+                        yield [fmt, rel, list(range(i, min(len(oc), i + 8)))]
+
+    def check(self, case, rec):
+        _limits()
+        import xml.etree.ElementTree as ET
+
+        only = None
+        if case[-1] in audit.CANARY_NAMES:
+            case, only = case[:-1], case[-1]
+        fmt, rel, idxs = case
+        root = ET.parse(os.path.join(corpus.TESTS, rel)).getroot()
+        oc = sites.xml_occurrences(root)
+        n = 0
+        for j in idxs:
+            i, tag, attr = oc[j]
+            for cname in audit.CANARY_NAMES if only is None else [only]:
+                w = audit.Watch()
+                doc = sites.xml_replace(root, i, attr, w.canaries()[cname])
+                if fmt == "designspace":
+                    from fontTools.designspaceLib import DesignSpaceDocument
+
+                    run = lambda: DesignSpaceDocument.fromstring(doc)  # noqa: E731
+                elif fmt == "glif":
+                    from fontTools.ufoLib.glifLib import readGlyphFromString
+                    from fontTools.pens.recordingPen import RecordingPointPen
+
+                    class G:
+                        pass
+
+                    run = lambda: readGlyphFromString(doc, glyphObject=G(), pointPen=RecordingPointPen())  # noqa: E731
+                else:
+                    from fontTools.misc import plistlib
+
+                    run = lambda: plistlib.loads(doc)  # noqa: E731
+                with w:
+                    exc = guarded(run)
+                rec.witness(fmt)
+                judge_canary(rec, w, fmt, [root.tag, tag, attr], [fmt, rel, [j], cname], exc, cname)
+                rec.nontrivial_n(1)
+                n += 1
+        rec.evals(max(0, n - 1))
+
+
+class CanaryFea(Unit):
+    name = "E4-fea"
+    rule = ("value positions of the corpus feature files (string literals with and without their quotes, numbers, include() arguments): quick = every distinct (statement keyword, kind, ordinal) site with its smallest carrier; thorough = every position of every file; x 8 canaries: "
+            "feaLib Parser (includes resolved next to the file) and then the builder on a font whose glyph order holds every name of the file; same monitor as E4-ttx; distinct = each (file, position, canary)")
+    required_witnesses = ("fea parsed with canary as data", "fea built", "ordinary exception", "include argument replaced", "number replaced", "string replaced")
+    chunk = 8
+
+    def setup(self, tier, seed):
+        preload()
+        self.files = sites.files_with_ext(corpus.TESTS, ".fea")
+        self.distinct = {}
+        self.npos = {}
+        for p in self.files:
+            rel = os.path.relpath(p, corpus.TESTS)
+            try:
+                text = open(p, encoding="utf-8").read()
+            except Exception:
+                continue
+            pos = sites.fea_positions(text)
+            self.npos[rel] = len(pos)
+            for j, (_a, _b, kind, kw, ordinal) in enumerate(pos):
+                self.distinct.setdefault((kw, kind, ordinal), (rel, j))
+
+    def bounds(self, tier, seed):
+        return {"files": len(self.npos), "positions": sum(self.npos.values()), "distinct_sites": len(self.distinct)}
+
+    def cases(self, tier, seed):
+        if tier == "quick":
+            for k in sorted(self.distinct):
+                rel, j = self.distinct[k]
+                yield [rel, [j]]
+        else:
+            for rel in sorted(self.npos):
+                for i in range(0, self.npos[rel], 8):
+                    yield [rel, list(range(i, min(self.npos[rel], i + 8)))]
+
+    def check(self, case, rec):
+        _limits()
+        from fontTools.feaLib.parser import Parser
+        from fontTools.feaLib.builder import addOpenTypeFeaturesFromString
+
+        only = None
+        if case[-1] in audit.CANARY_NAMES:
+            case, only = case[:-1], case[-1]
+        rel, idxs = case
+        path = os.path.join(corpus.TESTS, rel)
+        text = open(path, encoding="utf-8").read()
+        pos = sites.fea_positions(text)
+        names = [".notdef"] + [n for n in sites.fea_glyph_names(text) if n != ".notdef"]
+        n = 0
+        for j in idxs:
+            a, b, kind, kw, ordinal = pos[j]
+            for cname in audit.CANARY_NAMES if only is None else [only]:
+                w = audit.Watch()
+                doc = text[:a] + w.canaries()[cname] + text[b:]
+                state = {}
+
+                def run():
+                    Parser(io.StringIO(doc), glyphNames=(), includeDir=os.path.dirname(path)).parse()
+                    state["parsed"] = True
+                    font = TTFont()
+                    font.setGlyphOrder(list(names))
+                    addOpenTypeFeaturesFromString(font, doc, filename=path)
+                    state["built"] = True
+
+                with w:
+                    exc = guarded(run)
+                if state.get("parsed"):
+                    rec.witness("fea parsed with canary as data")
+                if state.get("built"):
+                    rec.witness("fea built")
+                rec.witness({"include": "include argument replaced", "number": "number replaced"}.get(kind, "string replaced"))
+                judge_canary(rec, w, "fea", [kw, kind, ordinal], [rel, [j], cname], exc, cname)
+                rec.nontrivial_n(1)
+                n += 1
+        rec.evals(max(0, n - 1))
+
+
+class CanaryBlend(Unit):
+    name = "E4-cff-blend"
+    rule = ("CFF2 blend-list syntax: lists of 1..4 <blend value='...'/> elements of 1..4 numbers with each single number position replaced by each of the 8 canaries, through cffLib.parseBlendList directly and through a CFF2 TTX private dict (BlueValues / StdHW) imported with TTFont.importXML; "
+            "same monitor as E4-ttx; distinct = each (shape, position, canary, route)")
+    required_witnesses = ("literal_eval refused the canary", "direct parseBlendList", "through importXML", "unmodified list parsed")
+    chunk = 4
+
+    def setup(self, tier, seed):
+        preload()
+        self.carrier = None
+        import xml.etree.ElementTree as ET
+
+        for p in sorted(corpus.ttx_files(), key=lambda p: (os.path.getsize(p), p)):
+            try:
+                root = ET.parse(p).getroot()
+            except Exception:
+                continue
+            t = root.find("CFF2")
+            if t is not None and any(el.tag == "blend" for el in t.iter()):
+                self.carrier = os.path.relpath(p, corpus.TESTS)
+                break
+
+    def bounds(self, tier, seed):
+        return {"shapes": 16, "carrier": self.carrier}
+
+    def cases(self, tier, seed):
+        for nel in range(1, 5):
+            for nnum in range(1, 5):
+                yield [nel, nnum]
+
+    def check(self, case, rec):
+        _limits()
+        from fontTools import cffLib
+        import xml.etree.ElementTree as ET
+        import copy
+
+        nel, nnum = case[:2]
+        base = [[str(10 * e + k) for k in range(nnum)] for e in range(nel)]
+        plain = [("blend", {"value": " ".join(v)}, []) for v in base]
+        exp = [[int(x) for x in v] for v in base]
+        if cffLib.parseBlendList(["\n"] + plain) == (exp[0] if nel == 1 else exp):
+            rec.witness("unmodified list parsed")
+        else:
+            rec.violation("blend:baseline", "parseBlendList of a plain list gave %r" % (cffLib.parseBlendList(plain),), case=case)
+        root = ET.parse(os.path.join(corpus.TESTS, self.carrier)).getroot() if self.carrier else None
+        n = 0
+        for e in range(nel):
+            for k in range(nnum):
+                for cname in audit.CANARY_NAMES:
+                    # route 1: the function itself
+                    w = audit.Watch()
+                    vals = [list(v) for v in base]
+                    vals[e][k] = w.canaries()[cname]
+                    content = ["\n"] + [("blend", {"value": " ".join(v)}, []) for v in vals]
+                    with w:
+                        exc = guarded(lambda: cffLib.parseBlendList(content))
+                    rec.witness("direct parseBlendList")
+                    judge_canary(rec, w, "blend", ["parseBlendList"], [nel, nnum, e, k, cname, "direct"], exc, cname)
+                    n += 1
+                    # route 2: through a CFF2 TTX
+                    if root is not None:
+                        w = audit.Watch()
+                        vals = [list(v) for v in base]
+                        vals[e][k] = w.canaries()[cname]
+                        new = ET.Element("ttFont", dict(root.attrib))
+                        go = root.find("GlyphOrder")
+                        if go is not None:
+                            new.append(copy.deepcopy(go))
+                        t = copy.deepcopy(root.find("CFF2"))
+                        done = False
+                        for el in t.iter():
+                            if any(ch.tag == "blend" for ch in el) and not done:
+                                for ch in list(el):
+                                    el.remove(ch)
+                                for v in vals:
+                                    ET.SubElement(el, "blend", {"value": " ".join(v)})
+                                done = True
+                        new.append(t)
+                        doc = ET.tostring(new, encoding="utf-8", xml_declaration=True)
+                        font = TTFont()
+                        with w:
+                            exc = guarded(lambda: font.importXML(io.BytesIO(doc)))
+                        rec.witness("through importXML")
+                        judge_canary(rec, w, "blend", ["CFF2-ttx"], [nel, nnum, e, k, cname, "ttx"], exc, cname)
+                        n += 1
+        rec.nontrivial_n(n)
+        rec.evals(max(0, n - 1))
+
+
+# ------------------------------------------------------------------ E6 crash points of save
+class InjectedFault(Exception):
+    pass
+
+
+KNOWN = b"C20 destination file: these bytes must survive a failed save.\n" * 3
+
+
+class SaveCrash(Unit):
+    name = "E6-save-crash"
+    rule = ("every face of every corpus font below the size bound (quick 4 kB non-AOTS incl. the WOFF/WOFF2/TTC files + one AOTS font chosen by the seed; thorough 16 kB) x every table tag T x output flavor {as is, woff, woff2} x destination {str path, PathLike, file object opened r+b}: table T is loaded and its compile() made to raise during font.save(dest) onto an existing file of known content; "
+            "also faults injected into reorderFontTables, the WOFF zlib / WOFF2 brotli compressor and the writer's close(); and TTCollection.save with a compile fault in each member; whenever save raised, the destination holds exactly the known bytes (file object: nothing written, position unchanged); distinct = each (font, tag|fault, flavor, destination)")
+    required_witnesses = ("injected compile fault came out of save", "destination intact after failed save", "flavor woff", "flavor woff2", "file object destination",
+                          "reorderFontTables fault", "compressor fault", "writer close fault", "collection save")
+    chunk = 2
+
+    def setup(self, tier, seed):
+        preload()
+        self.files = dict(corpus.binary_files())
+        self.seed = seed
+
+    def select(self, tier):
+        lim = SMALL if tier == "quick" else MEDIUM
+        out = []
+        aots = sorted(n for n in self.files if corpus.is_aots(n))
+        pick = aots[(self.seed * 37) % len(aots)] if aots else None
+        for n in sorted(self.files, key=lambda n: (len(self.files[n]), n)):
+            d = self.files[n]
+            if tier == "quick" and corpus.is_aots(n):
+                if n != pick:  # quick: one AOTS font, chosen by the seed
+                    continue
+            elif len(d) >= lim:
+                continue
+            if len(d) >= MEDIUM:
+                continue
+            out.append(n)
+        return out
+
+    def bounds(self, tier, seed):
+        return {"fonts": len(self.select(tier)), "flavors": 3, "destinations": 3}
+
+    def cases(self, tier, seed):
+        for n in self.select(tier):
+            d = self.files[n]
+            for fn in faces_of(d):
+                ref = cont.reference(d, fn)
+                if cont.kind_of(d) == "woff2":
+                    tags = sorted(orig_tables_woff2(d))
+                else:
+                    tags = sorted(ref.tables)
+                for t in tags:
+                    yield ["table", n, fn, t]
+                yield ["global", n, fn]
+            if cont.kind_of(d) == "ttc":
+                yield ["collection", n]
+
+    # -- one attempt ---------------------------------------------------------
+    def attempt(self, rec, sub, do_save, what):
+        """do_save(dest) must leave the existing destination untouched if it raises."""
+        import tempfile
+        import pathlib
+
+        n = 0
+        with tempfile.TemporaryDirectory(prefix="c20-save-") as tmp:
+            for dest_kind in ("str", "pathlike", "fileobj"):
+                path = os.path.join(tmp, "dest-" + dest_kind + ".bin")
+                with open(path, "wb") as f:
+                    f.write(KNOWN)
+                raised = None
+                fobj = None
+                try:
+                    if dest_kind == "str":
+                        do_save(path)
+                    elif dest_kind == "pathlike":
+                        do_save(pathlib.Path(path))
+                    else:
+                        fobj = open(path, "r+b")
+                        do_save(fobj)
+                except Exception as e:
+                    raised = e
+                pos = None
+                if fobj is not None:
+                    try:
+                        pos = fobj.tell()
+                        fobj.close()
+                    except Exception:
+                        pass
+                n += 1
+                if raised is None:
+                    rec.count("fault not reached: save succeeded (%s)" % what.split(":")[0])
+                    continue
+                if isinstance(raised, InjectedFault):
+                    rec.witness("injected compile fault came out of save" if what.startswith("compile") else what.split(":")[0] + " fault")
+                else:
+                    rec.count("save failed earlier with %s" % exc_name(raised))
+                after = open(path, "rb").read()
+                if after != KNOWN or (pos not in (None, 0)):
+                    rec.violation("destination-clobbered:%s:%s" % (sub[0] if sub[0] == "collection" else "TTFont.save", "path" if dest_kind != "fileobj" else "fileobj"),
+                                  "save(%s) raised %s but the existing destination now holds %d bytes (%s), position %r" % (dest_kind, exc_name(raised), len(after), "changed" if after != KNOWN else "same", pos),
+                                  case=sub + [what, dest_kind], observed=after[:48], expected=KNOWN[:48])
+                else:
+                    rec.witness("destination intact after failed save")
+                    if dest_kind == "fileobj":
+                        rec.witness("file object destination")
+        return n
+
+    def check(self, case, rec):
+        _limits()
+        from fontTools.ttLib import ttFont as ttFont_mod, sfnt as sfnt_mod, woff2 as woff2_mod
+
+        def boom(*a, **k):
+            raise InjectedFault("injected")
+
+        kind, name = case[0], case[1]
+        data = self.files[name]
+        n = 0
+        if kind == "table":
+            fn, tag = case[2], case[3]
+            for flavor in ("keep", "woff", "woff2"):
+                font = TTFont(io.BytesIO(data), fontNumber=fn, recalcTimestamp=False)
+                try:
+                    with time_limit(20):
+                        table = font[tag]
+                except (Exception, Alarm):
+                    rec.count("table does not decode (not a crash point)")
+                    break
+                if flavor != "keep":
+                    font.flavor = flavor
+                    rec.witness("flavor " + flavor)
+                table.compile = boom
+                n += self.attempt(rec, case, lambda dest: font.save(dest), "compile:%s" % flavor)
+                rec.nontrivial_n(3)
+        elif kind == "global":
+            fn = case[2]
+            faults = [
+                ("reorderFontTables", None, ttFont_mod, "reorderFontTables"),
+                ("compressor", "woff", sfnt_mod, "compress"),
+                ("compressor", "woff2", woff2_mod.brotli, "compress"),
+                ("writer close", None, sfnt_mod.SFNTWriter, "close"),
+                ("writer close", "woff", sfnt_mod.SFNTWriter, "close"),
+                ("writer close", "woff2", woff2_mod.WOFF2Writer, "close"),
+            ]
+            for label, flavor, owner, attr in faults:
+                font = TTFont(io.BytesIO(data), fontNumber=fn, recalcTimestamp=False)
+                font.flavor = flavor
+                old = getattr(owner, attr)
+                try:
+                    setattr(owner, attr, boom)
+                    n += self.attempt(rec, case, lambda dest: font.save(dest), "%s:%s" % (label, flavor or "sfnt"))
+                finally:
+                    setattr(owner, attr, old)
+                rec.nontrivial_n(3)
+        else:
+            ncoll = len(cont.ttc_header(data)[1])
+            for i in range(ncoll):
+                coll = TTCollection(io.BytesIO(data), recalcTimestamp=False)
+                tags = sorted(str(t) for t in coll.fonts[i].reader.keys())
+                for tag in tags:
+                    coll = TTCollection(io.BytesIO(data), recalcTimestamp=False)
+                    try:
+                        coll.fonts[i][tag].compile = boom
+                    except Exception:
+                        continue
+                    rec.witness("collection save")
+                    n += self.attempt(rec, case, lambda dest: coll.save(dest), "compile:ttc-member-%d:%s" % (i, tag.strip()))
+                    rec.nontrivial_n(3)
+        rec.evals(max(0, n - 1))
+
+
+# ------------------------------------------------------------------ E5 path direction
+def tree_snapshot(root):
+    import hashlib
+
+    snap = {}
+    for d, dirs, files in os.walk(root):
+        for x in dirs:
+            p = os.path.join(d, x)
+            snap[os.path.relpath(p, root)] = ("link", os.readlink(p)) if os.path.islink(p) else ("dir",)
+        for x in files:
+            p = os.path.join(d, x)
+            if os.path.islink(p):
+                snap[os.path.relpath(p, root)] = ("link", os.readlink(p))
+            else:
+                with open(p, "rb") as f:
+                    snap[os.path.relpath(p, root)] = ("file", hashlib.sha1(f.read()).hexdigest())
+    return snap
+
+
+def tree_diff(before, after):
+    out = []
+    for k in sorted(set(before) | set(after)):
+        if before.get(k) != after.get(k):
+            out.append(("created" if k not in before else "deleted" if k not in after else "modified", k))
+    return out
+
+
+HOSTILE = ["../x", "ABS/x", "a/../../x", "../../x", "..\\x", "./../x", "out/../../x"]
+
+VARLIB_DS = """<?xml version='1.0' encoding='UTF-8'?>
+<designspace format="5.0">
+    <axes>
+        <axis tag="wght" name="Weight" minimum="300" maximum="700" default="300"/>
+    </axes>
+    <sources>
+        <source filename="masters/TestFamily-Master0.ttf" name="Light">
+            <location><dimension name="Weight" xvalue="300"/></location>
+        </source>
+        <source filename="masters/TestFamily-Master2.ttf" name="Bold">
+            <location><dimension name="Weight" xvalue="700"/></location>
+        </source>
+    </sources>
+    <variable-fonts>
+        <variable-font name=%s%s>
+            <axis-subsets>
+                <axis-subset name="Weight"/>
+            </axis-subsets>
+        </variable-font>
+    </variable-fonts>
+</designspace>"""
+
+
+def _quiet(fn):
+    """run a command-line entry point: SystemExit and ordinary exceptions are both fine here
+    (the oracle is the directory tree), stdout/stderr silenced."""
+    import contextlib
+
+    with open(os.devnull, "w") as null, contextlib.redirect_stdout(null), contextlib.redirect_stderr(null):
+        try:
+            with time_limit(60):
+                fn()
+            return "ok"
+        except SystemExit as e:
+            return "exit:%s" % (e.code,)
+        except Alarm:
+            return "timeout"
+        except Exception as e:
+            return "exc:" + exc_name(e)
+
+
+class Paths(Unit):
+    name = "E5-paths"
+    rule = ("entry points that derive output names from input content, run inside a scratch tree whose complete state (names, contents, links) is compared before/after: makeOutputFileName (hostile input file names - not '.'/'..' themselves, which name directories - x outputDir x extension x suffix x overwrite); varLib.main with variable-font filename / name in {../x, <abs>/x, a/../../x, ../../x, ..\\x, ./../x, out/../../x} with and without --output-dir; "
+            "ttx -s / -g / -z extfile -d OUT on fonts whose table tags and glyph names hold separators and dot-dot; UFOReader / UFOWriter (read all glyphs, rewrite, delete glyph, delete layer) on a UFO whose contents.plist / layercontents.plist point outside; TTX src= pointing outside: nothing is created, modified or deleted outside the requested output directory; distinct = each (entry point, hostile value, option)")
+    required_witnesses = ("makeOutputFileName", "varLib.main built a font", "ttx split dump wrote files", "ttx -g wrote glyph files", "ufo glyph written", "xml src read", "extfile bitmaps written")
+    chunk = 1
+
+    def setup(self, tier, seed):
+        preload()
+        vdir = os.path.join(corpus.TESTS, "varLib", "data", "master_ttx_interpolatable_ttf")
+        self.masters = {}
+        for n in ("TestFamily-Master0", "TestFamily-Master2"):
+            f = TTFont()
+            f.importXML(os.path.join(vdir, n + ".ttx"))
+            buf = io.BytesIO()
+            f.save(buf)
+            self.masters[n + ".ttf"] = buf.getvalue()
+        self.ufo = os.path.join(corpus.TESTS, "ufoLib", "testdata", "TestFont1 (UFO3).ufo")
+        self.bitmap_ttx = os.path.join(corpus.TESTS, "ttLib", "tables", "data", "NotoColorEmoji.subset.index_format_3.ttx")
+
+    def cases(self, tier, seed):
+        for h in HOSTILE + ["x", "x#1", "dir/x#2.ttf", "...", "..x", "a/..b"]:
+            yield ["mkout", h]
+        for field in ("filename", "name"):
+            for h in HOSTILE:
+                for use_d in (True, False):
+                    yield ["varlib", field, h, use_d]
+        for mode in ("-s", "-g"):
+            yield ["ttx-split", mode]
+        for h in ["../../../x", "ABS/x", "a/../../../../x", "../../../../outside/x"]:
+            yield ["ttx-extfile", h]
+        for h in ["../../../outside/victim", "../../../outside/new", "ABS/outside/victim", "ABS/outside/new", "../sibling", "sub/../../../../outside/victim"]:
+            yield ["ufo", "contents", h]
+        for h in ["../../outside", "ABS/outside", "../outside", "glyphs/../../../outside", ".."]:
+            yield ["ufo", "layercontents", h]
+        for h in ["../outside/sub.ttx", "ABS/sub.ttx"]:
+            yield ["xml-src", h]
+
+    def judge(self, rec, case, root, before, allowed, label):
+        after = tree_snapshot(root)
+        diff = tree_diff(before, after)
+        bad = [(k, p) for k, p in diff if not any(p == a or p.startswith(a + os.sep) for a in allowed)]
+        if bad:
+            rec.violation("outside-output-dir:%s" % label, "%s touched paths outside the requested output directory %r: %r" % (label, allowed, bad[:6]), case=case, observed=bad[:10])
+        return diff
+
+    def check(self, case, rec):
+        _limits()
+        import tempfile
+
+        kind = case[0]
+        rec.nontrivial_n(1)
+        if kind == "mkout":
+            from fontTools.misc.cliTools import makeOutputFileName
+
+            n = 0
+            with tempfile.TemporaryDirectory(prefix="c20-p-") as root:
+                out = os.path.join(root, "out")
+                os.makedirs(out)
+                open(os.path.join(out, "x.ttx"), "w").close()
+                h = case[1].replace("ABS", os.path.join(root, "abs"))
+                for ext in (".ttx", None, ""):
+                    for suffix in ("", "-suf"):
+                        for over in (False, True):
+                            for inp in (h, h + ".ttf", os.path.join(root, "in", h + ".ttf")):
+                                r = makeOutputFileName(inp, out, ext, over, suffix)
+                                n += 1
+                                nr = os.path.normpath(r)
+                                if not (nr == out or nr.startswith(out + os.sep)):
+                                    rec.violation("makeOutputFileName:outside", "makeOutputFileName(%r, outputDir=OUT, %r, %r, %r) = %r" % (inp.replace(root, "ROOT"), ext, over, suffix, r.replace(root, "ROOT")), case=case)
+            rec.witness("makeOutputFileName")
+            rec.evals(n - 1)
+            return
+        with tempfile.TemporaryDirectory(prefix="c20-p-") as root:
+            root = os.path.realpath(root)
+            proj = os.path.join(root, "outer", "proj")
+            os.makedirs(proj)
+            os.makedirs(os.path.join(root, "abs"))
+            os.makedirs(os.path.join(root, "outer", "outside"))
+            with open(os.path.join(root, "outer", "outside", "victim.txt"), "w") as f:
+                f.write("victim")
+            with open(os.path.join(root, "outer", "x.ttf"), "w") as f:
+                f.write("existing file one level up")
+
+            def real(h):
+                return h.replace("ABS", os.path.join(root, "abs"))
+
+            if kind == "varlib":
+                from fontTools import varLib
+                from xml.sax.saxutils import quoteattr
+
+                _k, field, h, use_d = case
+                os.makedirs(os.path.join(proj, "masters"))
+                for n, d in self.masters.items():
+                    with open(os.path.join(proj, "masters", n), "wb") as f:
+                        f.write(d)
+                hv = real(h)
+                if field == "filename":
+                    attrs = (quoteattr("TestFamily"), " filename=%s" % quoteattr(hv + ".ttf"))
+                else:
+                    attrs = (quoteattr(hv), "")
+                ds = os.path.join(proj, "test.designspace")
+                with open(ds, "w", encoding="utf-8") as f:
+                    f.write(VARLIB_DS % attrs)
+                args = [ds]
+                allowed = ["outer/proj"]
+                if use_d:
+                    os.makedirs(os.path.join(proj, "out"))
+                    args += ["--output-dir", os.path.join(proj, "out")]
+                    allowed = ["outer/proj/out"]
+                before = tree_snapshot(root)
+                res = _quiet(lambda: varLib.main(args))
+                diff = self.judge(rec, case, root, before, allowed, "varLib.main:variable-font-%s" % field)
+                if any(k == "created" and p.endswith((".ttf", ".otf")) for k, p in diff):
+                    rec.witness("varLib.main built a font")
+                rec.count("varLib.main -> %s" % res)
+            elif kind == "ttx-split":
+                from fontTools import ttx
+
+                font_path = os.path.join(proj, "hostile.ttf")
+                with open(font_path, "wb") as f:
+                    f.write(hostile_font())
+                out = os.path.join(proj, "out")
+                os.makedirs(out)
+                before = tree_snapshot(root)
+                res = _quiet(lambda: ttx.main([case[1], "-d", out, font_path]))
+                diff = self.judge(rec, case, root, before, ["outer/proj/out"], "ttx%s" % case[1])
+                made = [p for k, p in diff if k == "created"]
+                if len(made) > 3:
+                    rec.witness("ttx split dump wrote files")
+                if case[1] == "-g" and any("_g_l_y_f" in p and p.count(".") >= 2 for p in made) and len(made) > 12:
+                    rec.witness("ttx -g wrote glyph files")
+                rec.count("ttx %s -> %s (%d files)" % (case[1], res, len(made)))
+            elif kind == "ttx-extfile":
+                from fontTools import ttx
+
+                hv = real(case[1])
+                text = open(self.bitmap_ttx, encoding="utf-8").read()
+                victim = "eight"
+                if ('"%s"' % victim) not in text:
+                    victim = None
+                font = TTFont()
+                state = {}
+
+                def build():
+                    t2 = text.replace('"%s"' % victim, '"%s"' % hv) if victim else text
+                    font.importXML(io.BytesIO(t2.encode("utf-8")))
+                    post = font["post"]  # glyph names must be stored in the font: post format 2
+                    post.formatType, post.extraNames, post.mapping = 2.0, [], {}
+                    font.save(os.path.join(proj, "bitmap.ttf"))
+                    state["built"] = True
+
+                _quiet(build)
+                if not state.get("built"):
+                    rec.count("bitmap carrier did not build")
+                    return
+                out = os.path.join(proj, "out")
+                os.makedirs(out)
+                before = tree_snapshot(root)
+                res = _quiet(lambda: ttx.main(["-z", "extfile", "-d", out, os.path.join(proj, "bitmap.ttf")]))
+                diff = self.judge(rec, case, root, before, ["outer/proj/out"], "ttx-z-extfile")
+                if any(k == "created" and p.endswith(".png") for k, p in diff):
+                    rec.witness("extfile bitmaps written")
+                rec.count("ttx -z extfile -> %s" % res)
+            elif kind == "ufo":
+                import shutil
+                from fontTools.ufoLib import UFOReader, UFOWriter
+                from fontTools.misc import plistlib
+
+                _k, target, h = case
+                hv = real(h)
+                ufo = os.path.join(proj, "Test.ufo")
+                shutil.copytree(self.ufo, ufo)
+                os.makedirs(os.path.join(root, "abs", "outside"))
+                for vd in (os.path.join(root, "abs", "outside"), os.path.join(root, "outer", "outside")):
+                    for vn in ("victim.txt", "victim.glif"):
+                        with open(os.path.join(vd, vn), "w") as f:
+                            f.write("victim")
+                if target == "contents":
+                    p = os.path.join(ufo, "glyphs", "contents.plist")
+                    c = plistlib.load(open(p, "rb"))
+                    c["a"] = hv + ".glif"
+                    with open(p, "wb") as f:
+                        plistlib.dump(c, f)
+                else:
+                    p = os.path.join(ufo, "layercontents.plist")
+                    c = [["public.default", "glyphs"], ["evil", hv]]
+                    with open(p, "wb") as f:
+                        plistlib.dump(c, f)
+                before = tree_snapshot(root)
+
+                class G:
+                    pass
+
+                def draw(pen):
+                    pen.beginPath()
+                    pen.addPoint((0, 0), "line")
+                    pen.addPoint((10, 0), "line")
+                    pen.addPoint((10, 10), "line")
+                    pen.endPath()
+
+                def read_all():
+                    with UFOReader(ufo) as r:
+                        for layer in r.getLayerNames():
+                            gs = r.getGlyphSet(layer)
+                            for name in gs.keys():
+                                try:
+                                    gs.readGlyph(name, G())
+                                except Exception:
+                                    pass
+
+                state = {}
+
+                def write_ops():
+                    for layer in (None, "evil"):
+                        try:
+                            with UFOWriter(ufo) as w:
+                                gs = w.getGlyphSet(layer, defaultLayer=layer is None)
+                                g = G()
+                                g.width = 100
+                                gs.writeGlyph("a", g, drawPointsFunc=draw)
+                                gs.writeGlyph("new/../../glyph", g, drawPointsFunc=draw)
+                                gs.writeContents()
+                                state["wrote"] = True
+                                w.writeLayerContents()
+                        except Exception:
+                            pass
+
+                def delete_glyph():
+                    with UFOWriter(ufo) as w:
+                        gs = w.getGlyphSet()
+                        gs.deleteGlyph("a")
+                        gs.writeContents()
+
+                def delete_layer():
+                    with UFOWriter(ufo) as w:
+                        w.deleteGlyphSet("evil")
+                        w.writeLayerContents()
+
+                res = []
+                for phase, fn in (("read", read_all), ("write", write_ops), ("deleteGlyph", delete_glyph), ("deleteGlyphSet", delete_layer)):
+                    res.append("%s:%s" % (phase, _quiet(fn)))
+                    self.judge(rec, case, root, before, ["outer/proj/Test.ufo"], "ufoLib:%s.plist:%s" % (target, phase))
+                    before = tree_snapshot(root)
+                if state.get("wrote"):
+                    rec.witness("ufo glyph written")
+                rec.count("ufo " + " ".join(res))
+            elif kind == "xml-src":
+                hv = real(case[1])
+                sub = os.path.join(proj, hv) if not os.path.isabs(hv) else hv
+                os.makedirs(os.path.dirname(sub), exist_ok=True)
+                with open(sub, "w") as f:
+                    f.write('<?xml version="1.0"?><ttFont><CUST><hexdata>01 02</hexdata></CUST></ttFont>')
+                main = os.path.join(proj, "main.ttx")
+                with open(main, "w") as f:
+                    f.write('<?xml version="1.0"?><ttFont sfntVersion="OTTO"><CUST src=%s/></ttFont>' % __import__("xml.sax.saxutils").sax.saxutils.quoteattr(hv))
+                before = tree_snapshot(root)
+                font = TTFont()
+                res = _quiet(lambda: font.importXML(main))
+                self.judge(rec, case, root, before, [], "importXML:src")
+                if "CUST" in font and getattr(font["CUST"], "data", None) == b"\x01\x02":
+                    rec.witness("xml src read")
+                rec.count("importXML src -> %s" % res)
+
+
+_HOSTILE_FONT = None
+
+
+def hostile_font():
+    """a small TrueType font whose glyph names and table tags carry separators and dot-dot"""
+    global _HOSTILE_FONT
+    if _HOSTILE_FONT is None:
+        from fontTools.fontBuilder import FontBuilder
+        from fontTools.pens.ttGlyphPen import TTGlyphPen
+        from fontTools.ttLib.tables.DefaultTable import DefaultTable
+
+        names = [".notdef", "../../evil", "/abs", "a/b", "..", "con", "A", "a", "x\\y", "../up", "dir/../../z", "...", "nul.x", "a:b"]
+        fb = FontBuilder(1000, isTTF=True)
+        fb.setupGlyphOrder(names)
+        fb.setupCharacterMap({0x41 + i: n for i, n in enumerate(names[1:])})
+        glyphs = {}
+        for n in names:
+            pen = TTGlyphPen(None)
+            pen.moveTo((0, 0))
+            pen.lineTo((100, 0))
+            pen.lineTo((100, 100))
+            pen.closePath()
+            glyphs[n] = pen.glyph()
+        fb.setupGlyf(glyphs)
+        fb.setupHorizontalMetrics({n: (500, 0) for n in names})
+        fb.setupHorizontalHeader(ascent=800, descent=-200)
+        fb.setupNameTable({"familyName": "Hostile", "styleName": "Regular"})
+        fb.setupOS2()
+        fb.setupPost()
+        for tag in ("/../", "a/b ", "..  ", "\\x/y", "../x"):
+            t = DefaultTable(tag)
+            t.data = b"\x00\x01\x02\x03"
+            fb.font[tag] = t
+        buf = io.BytesIO()
+        fb.font.save(buf)
+        _HOSTILE_FONT = buf.getvalue()
+    return _HOSTILE_FONT
+
+
 def units():
-    return [Truncate(), Corrupt(), NonFont(), Undecodable()]
+    return [Truncate(), Corrupt(), NonFont(), Undecodable(), CanaryTTX(), CanaryXML(), CanaryFea(), CanaryBlend(), Paths(), SaveCrash()]
